@@ -70,6 +70,9 @@ def main():
         if prop == "C04":
             import props_capture
             return props_capture.run(prop, tier)
+        if prop == "C03":
+            import props_source
+            return props_source.run(prop, tier)
         print("unknown property", prop)
         return 2
     except (common.MachineryError, tlcrun.TLCError) as e:
